@@ -1,7 +1,8 @@
 """C12 - randomized Q-SVDs: orthonormal factors, interlacing values, exact on low rank.
 
-Deductive part (index-level shapes; symbolic m, n, R, oversample; power iterations 0..3 and passes 2..5
-enumerated as the property's quantifier states; qr_qua, quat_matmat, quat_hermitian, real_expand,
+Deductive part (index-level shapes; symbolic m, n, R, oversample; EVERY number of power iterations n_iter >= 0 and of
+passes n_passes >= 2 by inductive loop invariants (PowerLoop / PassLoop: the widths of the Q and R factors, which
+factor was written last), and additionally the counts 0..3 / 2..5 the property names unrolled on the real loop; qr_qua, quat_matmat, quat_hermitian, real_expand,
 real_contract, np.linalg.svd by contract):
   shapes.safe     on every path every product, slice and contraction is conformable (conformability and
                   real_contract-shape obligations emitted at each call) and the outputs are m x R, n x R and a
@@ -109,6 +110,119 @@ def deductive(rep: Report, tier):
             out.append(("values_are_every_fourth_of_the_small_svd", ix.scal_eq(s.at(i), S.at(4 * i))))
         return out
     clauses = ["returns_triple", "output_shapes", "one_global_random_draw", "one_small_svd", "values_are_every_fourth_of_the_small_svd"]
+    from ..interp import LoopRule
+
+    def lo_of(m, n, R, Pv):
+        return smin(smin(m, n), R + Pv)
+
+    class PowerLoop(LoopRule):
+        """rand_qsvd, for i in range(n_iter) with n_iter >= 0 arbitrary:  Q1 is an m x w quaternion array (the Q factor of a qr_qua call) with
+        min(m, n, R+P) <= w <= min(m, R+P).  (The width can only shrink in the first iteration, then it is stationary.)"""
+        modifies = ("Q1",)
+
+        def _ok(self, fr):
+            Q1 = fr.vars.get("Q1")
+            if not (isinstance(Q1, ix.IArr) and Q1.quat and len(Q1.shape) == 2):
+                return False
+            m, n, R, Pv = self.dims
+            w = Q1.shape[1]
+            return sand(Q1.shape[0] == m, w >= lo_of(m, n, R, Pv), w <= smin(m, R + Pv))
+
+        def establish(self, it, fr, start):
+            X = fr.vars["X_quat"]
+            self.dims = (X.shape[0], X.shape[1], fr.vars["R"], fr.vars["P"])
+            cur().require("inv.establish", self._ok(fr), "Q1 is m x w with min(m,n,R+P) <= w <= min(m,R+P) at loop entry", key="power.inv.establish")
+
+        def havoc(self, it, fr, k):
+            c = cur()
+            m, n, R, Pv = self.dims
+            w = SInt.var(c.fresh_name("w"))
+            c.assume(sand(w >= lo_of(m, n, R, Pv), w <= smin(m, R + Pv)))
+            fr.vars["Q1"] = abstract("Q1inv", (m, w))
+
+        def preserve(self, it, fr, k):
+            cur().require("inv.preserve", self._ok(fr), "after one power iteration Q1 is again m x w with the same bounds", key="power.inv.preserve")
+
+    class PassLoop(LoopRule):
+        """pass_eff_qsvd, for i in range(1, v+1) with v >= 2 arbitrary.  At the head of iteration i:
+             i = 1:  Q1 is the real n x (R+P) Gaussian sketch, nothing else exists yet;
+             i = 2:  Q2 (m x b), R2 (b x (R+P)) with b = min(m, R+P), Q1 still the sketch;
+             i >= 3: Q1 (n x a), R1 (a x c), Q2 (m x b), R2 (b x d) quaternion arrays with lo <= a <= min(n, R+P), lo <= b <= min(m, R+P)
+                     (lo = min(m, n, R+P)), and the factor written last agrees with the other one:
+                     i odd  (an even pass came last):  a = min(n, b), c = b;     i even (an odd pass came last):  b = min(m, a), d = a."""
+        modifies = ("Q1", "Q2", "R1", "R2")
+
+        def establish(self, it, fr, start):
+            X = fr.vars["X_quat"]
+            self.dims = (X.shape[0], X.shape[1], fr.vars["R"], fr.vars["P"])
+            m, n, R, Pv = self.dims
+            Q1 = fr.vars.get("Q1")
+            ok = isinstance(Q1, ix.IArr) and not Q1.quat and len(Q1.shape) == 2 and isinstance(start, int) and start == 1
+            cur().require("inv.establish", ok and sand(Q1.shape[0] == n, Q1.shape[1] == R + Pv), "the loop starts at pass 1 from the real n x (R+P) sketch", key="pass.inv.establish")
+            self.sketch = Q1
+
+        def _general(self, fr, k):
+            """the i >= 3 clause on the current frame (k = value of i at the head)"""
+            m, n, R, Pv = self.dims
+            Q1, Q2, R1, R2 = (fr.vars.get(x) for x in ("Q1", "Q2", "R1", "R2"))
+            if not all(isinstance(x, ix.IArr) and x.quat and len(x.shape) == 2 for x in (Q1, Q2, R1, R2)):
+                return False
+            a, b = Q1.shape[1], Q2.shape[1]
+            lo = lo_of(m, n, R, Pv)
+            base = sand(Q1.shape[0] == n, Q2.shape[0] == m, R1.shape[0] == a, R2.shape[0] == b, a >= lo, a <= smin(n, R + Pv), b >= lo, b <= smin(m, R + Pv))
+            odd = SBool.mk(SInt.lift(k) % 2 == 1)
+            return sand(base, sor(snot(odd), sand(a == smin(n, b), R1.shape[1] == b)), sor(odd, sand(b == smin(m, a), R2.shape[1] == a)))
+
+        def havoc(self, it, fr, k):
+            c = cur()
+            m, n, R, Pv = self.dims
+            if c.decide(SBool.mk(SInt.lift(k) == 1)):
+                fr.vars["Q1"] = self.sketch
+                for x in ("Q2", "R1", "R2"):
+                    fr.vars.pop(x, None)
+                return
+            if c.decide(SBool.mk(SInt.lift(k) == 2)):
+                b = smin(m, R + Pv)
+                fr.vars["Q1"] = self.sketch
+                fr.vars["Q2"], fr.vars["R2"] = abstract("Q2inv", (m, b)), abstract("R2inv", (b, R + Pv))
+                fr.vars.pop("R1", None)
+                return
+            a, b, cc, d = (SInt.var(c.fresh_name(x)) for x in ("a", "b", "c", "d"))
+            fr.vars["Q1"], fr.vars["R1"] = abstract("Q1inv", (n, a)), abstract("R1inv", (a, cc))
+            fr.vars["Q2"], fr.vars["R2"] = abstract("Q2inv", (m, b)), abstract("R2inv", (b, d))
+            c.assume(sand(cc >= 0, d >= 0))
+            c.assume(self._general(fr, k))
+
+        def preserve(self, it, fr, k):
+            c = cur()
+            m, n, R, Pv = self.dims
+            if c.valid(SBool.mk(SInt.lift(k) == 1)) is True:
+                Q1, Q2, R2 = (fr.vars.get(x) for x in ("Q1", "Q2", "R2"))
+                ok = Q1 is self.sketch and all(isinstance(x, ix.IArr) and x.quat for x in (Q2, R2))
+                c.require("inv.preserve", ok and sand(Q2.shape[0] == m, Q2.shape[1] == smin(m, R + Pv), R2.shape[0] == Q2.shape[1], R2.shape[1] == R + Pv),
+                          "after pass 1: Q2, R2 of the sketched product, Q1 untouched", key="pass.inv.preserve.first")
+            else:
+                c.require("inv.preserve", self._general(fr, k + 1), "after pass i the state satisfies the clause for i + 1", key="pass.inv.preserve.general")
+
+    def setup_iter(I, ctx):
+        args, kw, aux = setup_for({})(I, ctx)
+        it_ = SInt.var("n_iter")
+        ctx.assume(it_ >= 0, base=True)
+        kw["n_iter"] = it_
+        return args, kw, aux
+
+    def setup_pass(I, ctx):
+        args, kw, aux = setup_for({})(I, ctx)
+        v = SInt.var("n_passes")
+        ctx.assume(v >= 2, base=True)
+        kw["n_passes"] = v
+        return args, kw, aux
+    # every number of power iterations / passes (inductive invariants) ...
+    run_case(rep, P, QS + "rand_qsvd", "all_n_iter", setup_iter, post, lib=mklib(), contracts=CONTRACTS, loop_rules={(QS + "rand_qsvd", 0): PowerLoop()},
+             clauses=clauses, replay=replay_rand, timeout_s=30)
+    run_case(rep, P, QS + "pass_eff_qsvd", "all_n_passes", setup_pass, post, lib=mklib(), contracts=CONTRACTS, loop_rules={(QS + "pass_eff_qsvd", 0): PassLoop()},
+             clauses=clauses, replay=replay_rand, timeout_s=30)
+    # ... and the counts the property names, unrolled on the real loop (independent of the invariants above)
     for it in range(0, 4):
         run_case(rep, P, QS + "rand_qsvd", f"n_iter={it}", setup_for({"n_iter": it}), post, lib=mklib(), contracts=CONTRACTS, clauses=clauses, replay=replay_rand, timeout_s=20)
     for v in range(2, 6):
